@@ -64,6 +64,13 @@ def rejection_sites(ck: Check, q: str) -> List[str]:
             t = e.term
             if t == ("g", "builtin:reraise") or any(c.prov == "handler" for c in e.pc):
                 continue        # passes on (or renames) a failure that was on its way out already: not a refusal of its own
+            last = [c.term for c in e.pc if c.prov == "branch"][-1:]
+            if last and last[0][0] == "cmp" and last[0][1] == "notin":
+                # `if k not in D: raise X` in front of `D[k]`: the look-up would have raised KeyError for the same inputs
+                from ..engine.terms import mentions as _mentions
+                sub = ("s", last[0][3], last[0][2])
+                if any(x.seq > e.seq and not x.chain and (_mentions(x.term, sub) or (x.value is not None and _mentions(x.value, sub))) for x in s.events):
+                    continue
             msg = ""
             if t[0] == "call" and t[2]:
                 a0 = t[2][0]
@@ -465,7 +472,8 @@ def rule_effect_free(ck: Check, rule: str, qualnames: Sequence[str], what: str) 
         muts = collect_mutations(ck.walker, q, set(), reach)
         ck.analysed(*[r for r in reach if not r.startswith("new:")])
         construct = "%s and its %d reachable callees mutate nothing reachable from their arguments" % (short(q), max(len(set(reach)) - 1, 0))
-        bad = [m for m in muts if m.root[0] in ("v", "e", "g") and not _is_counter(m)]
+        # (the exception object a handler caught was created by the failing validation itself: annotating it touches no prior state)
+        bad = [m for m in muts if m.root[0] in ("v", "e", "g") and not _is_counter(m) and not (m.root[0] == "v" and str(m.root[1]).startswith("exc:"))]
         if not bad:
             ck.ok(rule, construct, what, ck.repo.func(q).loc)
         else:
